@@ -11,6 +11,7 @@ import (
 	"context"
 	"encoding/json"
 	"fmt"
+	"path"
 	"strings"
 	"testing"
 
@@ -97,7 +98,7 @@ func (a *admitter) admit(in, old *proxyv1alpha1.UpstreamCluster) (out *proxyv1al
 // ---------- list shapes (for signatures) ----------
 
 func listClass(list []string) string {
-	star, pos, neg, glob, starsub, emptystr, baredash, dup := false, 0, 0, false, false, false, false, false
+	star, pos, neg, glob, starsub, emptystr, baredash, dup, noncanon, shaped := false, 0, 0, false, false, false, false, false, false, false
 	seen := map[string]bool{}
 	for _, e := range list {
 		if seen[e] {
@@ -127,6 +128,12 @@ func listClass(list []string) string {
 		if strings.HasPrefix(v, "*/") {
 			starsub = true
 		}
+		if strings.HasPrefix(v, "/") && path.Clean(v) != v {
+			noncanon = true // trailing slash, doubled slash, dot segment
+		}
+		if v != strings.ToLower(v) || v != strings.TrimSpace(v) {
+			shaped = true // upper case / surrounding blank
+		}
 	}
 	var c string
 	switch {
@@ -150,6 +157,10 @@ func listClass(list []string) string {
 	}
 	// one feature at most, the most specific first (keeps the signature space small)
 	switch {
+	case noncanon:
+		c += "+noncanonical-path"
+	case shaped:
+		c += "+case-or-blank"
 	case emptystr:
 		c += "+emptystr"
 	case baredash:
@@ -330,6 +341,11 @@ func selfTest(r *vkit.R, a *admitter) {
 
 var alphabet = []string{"*", "a", "b", "-a", "-b", "", "-", "a*", "-a*", "*/s", "-*/s", "a/s", "-a/s", "a/*"}
 
+var urlAlphabet = []string{"*", "/logs/", "/logs", "//logs", "/a/./b", "/a/../logs", "/logs/*", "/logs*", "/", "",
+	"-/logs/", "-/logs", "-//logs", "-/a/./b", "-/logs/*", "-/"}
+
+var shapeAlphabet = []string{"a", "A", " a", "a ", "-A", "-a", "A*", "a*"}
+
 func enumLists(alpha []string, maxLen int, fn func([]string)) {
 	fn(nil)
 	var rec func(cur []string)
@@ -374,15 +390,30 @@ type fieldWitness struct {
 func perField(r *vkit.R, a *admitter) {
 	const maxLen = 3
 	var lists [][]string
-	enumLists(alphabet, maxLen, func(l []string) { lists = append(lists, l) })
-	lists = append(lists, []string{}) // empty, non-nil
+	var only []string // "" = the list is placed in every field; otherwise in that field only
+	enumLists(alphabet, maxLen, func(l []string) { lists, only = append(lists, l), append(only, "") })
+	lists, only = append(lists, []string{}), append(only, "") // empty, non-nil
+	// nonResourceURLs are paths: their own alphabet of slash-shaped entries (trailing slash, doubled slash, dot segments,
+	// prefix globs, root, empty, and the '-' forms), exhaustive for length <= 3 as well
+	enumLists(urlAlphabet, maxLen, func(l []string) {
+		if len(l) > 0 {
+			lists, only = append(lists, l), append(only, "nonResourceURLs")
+		}
+	})
+	// letter case and surrounding blanks, every field, length <= 2 (a normaliser that folds or trims would change matching)
+	enumLists(shapeAlphabet, 2, func(l []string) {
+		if len(l) > 0 {
+			lists, only = append(lists, l), append(only, "")
+		}
+	})
 
-	reqVals := []string{"a", "b", "c", "", "a1", "a/s", "b/s", "b/t", "-a", "-", "*"}
-	groupSets := [][]string{nil, {"a"}, {"b"}, {"c"}, {"a", "b"}, {"a", "c"}, {"c", "d"}, {"a", "b", "c"}, {""}, {"a1"}, {"-a"}}
+	reqVals := []string{"a", "b", "c", "", "a1", "a/s", "b/s", "b/t", "-a", "-", "*", "A", " a", "a "}
+	urlVals := []string{"/logs", "/logs/", "/logs//a", "/logs/a", "/a/./b", "/a/b", "/", "//logs", "/a/../logs", "/logsx", "/a"}
+	groupSets := [][]string{nil, {"a"}, {"b"}, {"c"}, {"a", "b"}, {"a", "c"}, {"c", "d"}, {"a", "b", "c"}, {""}, {"a1"}, {"-a"}, {"A"}, {" a"}, {"a "}}
 	type resReq struct{ res, sub string }
-	resReqs := []resReq{{"a", ""}, {"b", ""}, {"c", ""}, {"a", "s"}, {"b", "s"}, {"b", "t"}, {"a1", ""}, {"", ""}, {"*", "s"}, {"a", "*"}, {"-a", ""}}
+	resReqs := []resReq{{"a", ""}, {"b", ""}, {"c", ""}, {"a", "s"}, {"b", "s"}, {"b", "t"}, {"a1", ""}, {"", ""}, {"*", "s"}, {"a", "*"}, {"-a", ""}, {"A", ""}, {" a", ""}, {"a ", ""}}
 	saSets := [][]proxyv1alpha1.ServiceAccountRef{nil, {{Namespace: "n", Name: "x"}}, {{Namespace: "", Name: "x"}}, {{Namespace: "n", Name: "x"}, {Namespace: "m", Name: "y"}}}
-	userVals := []string{"a", "b", "c", "", "a1", "-a", "system:serviceaccount:n:x", "system:serviceaccount:m:y", "system:serviceaccount::x"}
+	userVals := []string{"a", "b", "c", "", "a1", "-a", "system:serviceaccount:n:x", "system:serviceaccount:m:y", "system:serviceaccount::x", "A", " a", "a "}
 
 	// the probes of a field vary only that field's attribute; everything else is fixed and matched by the match-all rule
 	base := Req{Verb: "get", User: "u", Groups: []string{"g"}, IsResource: true, Group: "apps", Resource: "pods", Name: "n1", Path: "/apis/apps/v1/pods"}
@@ -398,6 +429,12 @@ func perField(r *vkit.R, a *admitter) {
 		q.Name = v
 		probes["resourceNames"] = append(probes["resourceNames"], q)
 		q = base
+		q.IsResource, q.Group, q.Resource, q.Name = false, "", "", ""
+		q.Path = v
+		probes["nonResourceURLs"] = append(probes["nonResourceURLs"], q)
+	}
+	for _, v := range urlVals {
+		q := base
 		q.IsResource, q.Group, q.Resource, q.Name = false, "", "", ""
 		q.Path = v
 		probes["nonResourceURLs"] = append(probes["nonResourceURLs"], q)
@@ -430,6 +467,9 @@ func perField(r *vkit.R, a *admitter) {
 		var slots []slot
 		pol := proxyv1alpha1.DispatchPolicy{}
 		for _, f := range fields {
+			if only[i] != "" && only[i] != f.name {
+				continue
+			}
 			n := 1
 			if f.name == "users" {
 				n = len(saSets)
@@ -586,7 +626,7 @@ var (
 	names     = []string{"", "n1", "n2", "nginx"}
 	users     = []string{"admin", "admin1", "bob", "alice", "system:serviceaccount:kube-system:sa1", "system:serviceaccount:default:sa2", "system:kube-scheduler"}
 	ugroups   = []string{"system:authenticated", "system:masters", "dev", "ops", "system:serviceaccounts"}
-	paths     = []string{"/healthz", "/healthz/etcd", "/version", "/metrics", "/apis", "/", "/readyz/x/y"}
+	paths     = []string{"/healthz", "/healthz/etcd", "/version", "/metrics", "/apis", "/", "/readyz/x/y", "/logs/", "/logs", "//healthz", "/healthz//etcd", "/a/./b", "/a/../version", "/readyz/"}
 )
 
 func genList(g *vkit.Rand, vals []string, allowGlob, allowStarSub bool) []string {
@@ -712,6 +752,9 @@ func (p *pools) addRule(ru *proxyv1alpha1.DispatchPolicyRule) {
 	for _, e := range ru.NonResourceURLs {
 		v := strip(e)
 		p.path = append(p.path, e, v)
+		if strings.HasPrefix(v, "/") { // what a canonicalising normaliser would confuse it with
+			p.path = append(p.path, path.Clean(v), strings.TrimSuffix(v, "/")+"/")
+		}
 		if strings.HasSuffix(v, "*") {
 			t := strings.TrimRight(v, "*")
 			p.path = append(p.path, t, t+"x")
